@@ -255,6 +255,26 @@ EXTRA6 = {
 }
 for k, v in EXTRA6.items():
     claimed[k]["text"] += v
+POINTS = " Code-point seam: an overlay inserts a call at every function entry and loop iteration of the library's packages; in the groups that switch it on each is a scheduling point and every schedule with <=1 preemption is run (interleavings INSIDE calls)."
+EXTRA7 = {
+ "C02": " The numeric document version over the corners of the 32-bit, 53-bit and 64-bit ranges.",
+ "C03": " Documents with no or several roots are written to CycloneDX too and judged by the census if the write succeeds.",
+ "C04": " Stream behaviours as environment answers (one-byte reads, data with EOF, a failing read, Seek failing always / after a read / the second time) x format detected / stated / stated wrongly.",
+ "C05": " Every code point of the Basic Multilingual Plane as an identifier seed.",
+ "C07": " Size-class documents (flat 255 / 256 / 257 / 1025 nodes and the shared wide lists) x 8 formats.",
+ "C09": " The attribute cube also with empty collections as allocated zero-length values; the receiver as its own argument.",
+ "C10": " As C09: allocated-empty collections; the receiver as its own argument.",
+ "C11": POINTS + " Used for 72 pairs of serializations of one shared document; an operand whose values are new to the process on every build (warn-once sets and caches meet something unseen every time).",
+ "C12": " Lists emptied in place (length 0, capacity kept).",
+ "C13": " Node lists of 131 / 515 / 1027 nodes under GOMAXPROCS 2, 3, 4, 16.",
+ "C14": " The second node's lists made of the first node's own element objects (prefix, repeated, reversed, next to equal copies).",
+ "C15": " All 16 assignments of package / file kinds on chain, fan and diamond.",
+ "C16": " Every list member itself as the probe.",
+ "C17": POINTS + " Used for the 91 pairs of the parsing / writing / detection calls; a parse of malformed dates new to the process.",
+ "C20": " First store of 1.5 MiB and 9 MiB and overwrite by 9 MiB with thinned byte prefixes (0..256, around every power of two, the last three).",
+}
+for k, v in EXTRA7.items():
+    claimed[k]["text"] += v
 
 checks = []
 for pid in all_ids:
